@@ -86,11 +86,19 @@ func walk(n fs.Node, comps []string, depth int, out *walkResult, budget *int) {
 		out.problems = append(out.problems, "fuse-readdir-error\x00"+fmt.Sprintf("ReadDirAll(%q): %v", comps, err))
 		return
 	}
+	seenName := map[string]bool{}
 	for _, e := range ents {
 		out.dirents++
 		if e.Name == "." || e.Name == ".." {
 			continue
 		}
+		if seenName[e.Name] {
+			// a directory listing names each entry once (a second dirent of the same name shows every file
+			// below it twice to whoever walks the tree)
+			out.problems = append(out.problems, "fuse-duplicate-entry\x00"+fmt.Sprintf("ReadDirAll(%q) lists %q more than once", comps, e.Name))
+			continue
+		}
+		seenName[e.Name] = true
 		*budget--
 		if *budget <= 0 {
 			return
